@@ -75,27 +75,28 @@ where
     type Item = Trpl<'a, TI>;
 
     fn next(&mut self) -> Option<Self::Item> {
-        let [si, pi, oi] = *self.spo.next()?;
+        loop {
+            let [si, pi, oi] = *self.spo.next()?;
 
-        if si != self.s.i {
-            self.s.update(si, self.terms);
-        }
-        if !self.s.b {
-            return self.next();
-        }
+            if si != self.s.i {
+                self.s.update(si, self.terms);
+            }
+            if !self.s.b {
+                continue;
+            }
 
-        if pi != self.p.i {
-            self.p.update(pi, self.terms);
-        }
-        if !self.p.b {
-            return self.next();
-        }
+            if pi != self.p.i {
+                self.p.update(pi, self.terms);
+            }
+            if !self.p.b {
+                continue;
+            }
 
-        self.o.update(oi, self.terms);
-        if !self.o.b {
-            self.next()
-        } else {
-            Some([self.s.t, self.p.t, self.o.t])
+            self.o.update(oi, self.terms);
+            if !self.o.b {
+                continue;
+            }
+            return Some([self.s.t, self.p.t, self.o.t]);
         }
     }
 }
@@ -172,21 +173,22 @@ where
     type Item = Trpl<'a, TI>;
 
     fn next(&mut self) -> Option<Self::Item> {
-        let [ai, bi, ci] = *self.abc.next()?;
-        debug_assert!(Term::eq(&self.terms.get_term(ai), self.a));
+        loop {
+            let [ai, bi, ci] = *self.abc.next()?;
+            debug_assert!(Term::eq(&self.terms.get_term(ai), self.a));
 
-        if bi != self.b.i {
-            self.b.update(bi, self.terms);
-        }
-        if !self.b.b {
-            return self.next();
-        }
+            if bi != self.b.i {
+                self.b.update(bi, self.terms);
+            }
+            if !self.b.b {
+                continue;
+            }
 
-        self.c.update(ci, self.terms);
-        if !self.c.b {
-            self.next()
-        } else {
-            Some([self.a, self.b.t, self.c.t])
+            self.c.update(ci, self.terms);
+            if !self.c.b {
+                continue;
+            }
+            return Some([self.a, self.b.t, self.c.t]);
         }
     }
 }
